@@ -33,7 +33,7 @@ TESTED_ONLY = {
  'C16': ['compatible => accepted, merged attribute values, target complexes (oracle c16); result = union and accepted => compatible are proved for every pair'],
  'C17': ['the JSON text layer (json.dumps / loads, files), name types, nested / unicode attribute values, wrapping in other JSON, filtrations, acceptance of every encoding (oracle c17); the structural round trip is proved for every complex'],
  'C18': ['counts as binomials and Betti numbers beyond k = 6; skeleton / ring / lattice on arbitrary targets beyond 3 points; requested name / attributes of the top simplex on non-empty targets (oracle c18); k_simplex / k_void in vertex sets with the frame clause are proved for every target that meets the vertex-set reading'],
- 'C19': ['the Euler integral: level-set and simplex-wise formulas, default value, additivity, input unchanged (oracle c19); Euler characteristic = alternating Betti sum is proved for every history'],
+ 'C19': ['additivity over disjoint unions, input unchanged, complexes built out of contract (oracle c19); the level-set and simplex-wise formulas with the default value are proved for every complex that meets the vertex-set reading, Euler characteristic = alternating Betti sum for every history'],
  'C20': ['positionsOf / len / in against the complex (oracle c20); Euclidean distance and lattice positions on arbitrary doubles: the binary64 model is compared bit for bit with the code on every run, not proved about real numbers'],
 }
 
